@@ -63,6 +63,11 @@ type Script struct {
 	Duplex  bool `json:"duplex,omitempty"`
 	MsgSize int  `json:"msg_size,omitempty"`
 
+	// Hop: class of HTTP/1 connection header fields added to the request
+	// (HTTP front); InProc: the request is handed to the Mux in-process.
+	Hop    string `json:"hop,omitempty"`
+	InProc bool   `json:"in_process,omitempty"`
+
 	MetaPlan bool   `json:"meta_plan,omitempty"`
 	Pause    string `json:"pause,omitempty"` // pause class: where the client thinks (open|between|close|all) and how long
 	Fam      string `json:"fam"`             // plan family (structural class used in finding keys)
@@ -75,6 +80,12 @@ func (s *Script) String() string {
 	}
 	if s.Duplex {
 		meta += fmt.Sprintf(" duplex size=%d", s.MsgSize)
+	}
+	if s.Hop != "" {
+		meta += " hop=" + s.Hop
+	}
+	if s.InProc {
+		meta += " in-process"
 	}
 	if s.MetaPlan {
 		meta += " plan-in-metadata pause=" + s.Pause
@@ -351,6 +362,72 @@ func metaStructures(front string) []structure {
 	return out
 }
 
+// http1 reports whether the script goes over the HTTP/1.1 client (or
+// in-process): HTTP front, whole body first, not bidi.
+func http1(s *Script) bool {
+	return s.Front == "http" && s.Shape != "bidi" && !s.MetaPlan && !s.Duplex
+}
+
+// hopStructures: every connection-header class on every HTTP/1 shape, over a
+// real connection and in-process.
+func hopScripts(rng *rand.Rand) []*Script {
+	var out []*Script
+	for _, st := range structures("http") {
+		switch {
+		case st.Shape == "unary": // OK and failing
+		case st.Shape == "ss" && st.Fam == "replies" && len(st.Server) == 2 && !st.fail:
+		case st.Shape == "cs" && st.NMsg == 2 && st.Fam == "read-to-eof" && len(st.Server) == 2 && !st.fail:
+		default:
+			continue
+		}
+		for _, hc := range hopClasses {
+			for _, in := range []bool{false, true} {
+				s := materialise(rng, st)
+				s.Hop, s.InProc = hc, in
+				out = append(out, s)
+			}
+		}
+	}
+	return out
+}
+
+// wsStructures enumerates the WebSocket scripts. larking has no half-close on
+// this transport (a client close frame reaches the handler as a receive
+// error), so only plans that the server ends are used, and the back-end
+// reads every message the client sends (a server that closes with unread
+// frames in its socket resets the connection, which can destroy the close
+// frame: transport behaviour, not the proxy's).
+func wsStructures() []structure {
+	var out []structure
+	add := func(shape, fam string, n int, server, client []string, fail bool) {
+		out = append(out, structure{Script{Front: "ws", Shape: shape, NMsg: n, Server: server, Client: client, Fam: fam, BigReq: -1, BigRep: -1}, fail})
+	}
+	for _, f := range []bool{false, true} {
+		for j := 0; j <= 4; j++ {
+			add("ss", "ws:replies", 1, rep("s", j), []string{"s"}, f)
+		}
+		for n := 1; n <= 5; n++ {
+			add("cs", "ws:read-all", n, rep("r", n-1), rep("s", n), f)
+			for j := 0; j <= 3; j++ {
+				add("bidi", "ws:batch", n, cat(rep("r", n-1), rep("s", j)), rep("s", n), f)
+				if j > 0 {
+					add("bidi", "ws:batch/client-reads-each", n, cat(rep("r", n-1), rep("s", j)), cat(rep("s", n), rep("r", j)), f)
+				}
+			}
+			srv := []string{"s"}
+			var cl []string
+			for i := 0; i < n; i++ {
+				if i > 0 {
+					srv = append(srv, "r", "s")
+				}
+				cl = append(cl, "s", "r")
+			}
+			add("bidi", "ws:alternate", n, srv, cl, f)
+		}
+	}
+	return out
+}
+
 // pipelined enumerates the full-duplex scripts: a bidi echo in which the
 // client keeps sending (its own goroutine) while the replies flow back, with
 // and without compression, so that both directions of the proxy work at the
@@ -480,8 +557,17 @@ func materialise(rng *rand.Rand, st structure) *Script {
 		s.HTTPGet = true
 		s.BigReq = -1
 	}
-	if !s.Duplex && !s.HTTPGet && rng.Intn(4) == 0 {
+	if !s.Duplex && !s.HTTPGet && s.Front != "ws" && rng.Intn(4) == 0 {
 		s.Gzip = true
+	}
+	if http1(&s) {
+		if rng.Intn(4) == 0 {
+			s.Hop = hopClasses[rng.Intn(len(hopClasses))]
+		}
+		s.InProc = rng.Intn(4) == 0
+	}
+	if s.Front == "ws" {
+		s.BigReq = -1 // one JSON text frame per message; keep frames small
 	}
 	return &s
 }
@@ -518,6 +604,16 @@ func Cases(rng *rand.Rand, thorough bool) []*Script {
 		// think-time scripts: every structure once
 		for _, st := range metas {
 			list = append(list, materialise(rng, st))
+		}
+		// WebSocket scripts: every structure six times; connection-header
+		// scripts: three draws
+		for _, st := range wsStructures() {
+			for k := 0; k < 6; k++ {
+				list = append(list, materialise(rng, st))
+			}
+		}
+		for k := 0; k < 3; k++ {
+			list = append(list, hopScripts(rng)...)
 		}
 		// full-duplex scripts: every structure twice
 		for k := 0; k < 2; k++ {
@@ -575,6 +671,14 @@ func Cases(rng *rand.Rand, thorough bool) []*Script {
 	}
 	for len(list) < budget {
 		list = append(list, materialise(rng, strs[rng.Intn(len(strs))]))
+	}
+	// connection-header scripts (every class x shape x real / in-process) and
+	// half of the WebSocket structures
+	list = append(list, hopScripts(rng)...)
+	for _, st := range wsStructures() {
+		if rng.Intn(2) == 0 {
+			list = append(list, materialise(rng, st))
+		}
 	}
 	// full-duplex scripts: every structure of the quick variant once (each
 	// front, with and without gzip, OK and failing end)
